@@ -1,20 +1,36 @@
 (* Closed witnesses (vm_compute) for the kind-inference model: the full order-independence
    statement, its refutation per defect shape, and non-vacuity examples for the theorems
-   order_independent_partial / order_independent. *)
+   order_independent_partial / order_independent / infer_kinds_phase_order. *)
 From Coq Require Import List String Bool Arith Permutation.
 Import ListNotations.
-From Dagrt Require Import Unify UnifyProofs KindOrder KindInfer KindInferProofs KindTableProofs
-  KindFinderProofs KindFinderFull.
+From Dagrt Require Import Unify UnifyProofs KindOrder KindInfer KindRegistryProofs KindInferProofs
+  KindTableProofs KindFinderProofs KindFinderFull.
 Open Scope string_scope.
+
+Definition sg (args : list string) (n : nat) (rk : rkind) : fsig :=
+  {| f_args := args; f_nres := n; f_rk := rk |}.
+
+(* some built-ins as dagrt/function_registry.py registers them, and an ODE right-hand side
+   (register_ode_rhs(reg, "u", identifier="<func>f")) *)
+Definition ex_reg : registry :=
+  [("<builtin>elementwise_abs", sg ["x"] 1 RAbs);
+   ("<builtin>dot_product", sg ["x"; "y"] 1 RDot);
+   ("<builtin>array", sg ["n"] 1 RArray);
+   ("<builtin>matmul", sg ["a"; "b"; "a_cols"; "b_cols"] 1 RMatMul);
+   ("<builtin>svd", sg ["a"; "a_cols"] 3 RSvd);
+   ("<func>f", sg ["t"; "u"] 1 (RRhs "u"))].
 
 (* the configuration of the model for given shape switches; the literal lists are those of
    dagrt/utils.py is_state_variable and SymbolKindTable.__init__ *)
-Definition mk_cfg (ut_int arr_int ins_changed set_raises prepass : bool) : cfg := {|
+Definition mk_cfg (ut_int arr_int ins_changed set_raises prepass restart arr_only : bool) : cfg := {|
   c_ut_int := ut_int;
   c_arr_int := arr_int;
   c_ins_changed := ins_changed;
   c_set_raises := set_raises;
   c_loops_prepass := prepass;
+  c_restart := restart;
+  c_arr_only := arr_only;
+  c_reg := ex_reg;
   c_is_state := is_state_variable ["<t>"; "<dt>"]
                   ["<state>"; "<p>"; "<ret_time_id>"; "<ret_time>"; "<ret_state>"];
   c_init_global := ["<t>"; "<dt>"]
@@ -33,32 +49,47 @@ Definition full_statement (c : cfg) : Prop :=
     run_queue c fuel' forced all' <> OOutOfFuel ->
     outcome_sim (run_queue c fuel forced all) (run_queue c fuel' forced all').
 
+(* The same for the DAGCode front end: the order in which the phases dict lists the phases *)
+Definition glue_statement (c : cfg) : Prop :=
+  forall fuel fuel' dag dag',
+    Permutation dag dag' ->
+    (forall ph s, In ph dag -> In s (snd ph) -> stmt_ok s = true) ->
+    infer_kinds c fuel dag <> OOutOfFuel ->
+    infer_kinds c fuel' dag' <> OOutOfFuel ->
+    outcome_sim (infer_kinds c fuel dag) (infer_kinds c fuel' dag').
+
 Definition asg (lhs : string) (e : expr) : bstmt :=
-  {| b_lhs := lhs; b_sub := false; b_loops := []; b_flat := e; b_raw := e |}.
+  {| b_lhs := [lhs]; b_sub := false; b_loops := []; b_rhs := RExpr e e |}.
+
+Definition asgl (lhs : string) (loops : list string) (sub : bool) (e : expr) : bstmt :=
+  {| b_lhs := [lhs]; b_sub := sub; b_loops := loops; b_rhs := RExpr e e |}.
+
+Definition calls (lhss : list string) (f : string) (args : list expr) (kwn : list string) : bstmt :=
+  {| b_lhs := lhss; b_sub := false; b_loops := []; b_rhs := RCall f args kwn |}.
 
 (* ---- defect: a loop variable set by a statement that does not count as progress ----
    X: a <- i * 2        Y: c[0] <- 1  (loop variable i)
    Popping X first: X is deferred (i unknown), Y sets i and is dropped without progress,
    "no progress" => diagnostics find that X can now be inferred => AssertionError.
-   Popping Y first: i is known when X is popped => a table.  Independent of the other switches. *)
+   Popping Y first: i is known when X is popped => a table.  Independent of the other switches
+   (except the restart: the insertion of i is a change of the table). *)
 Definition wX : qitem := ("p", asg "a" (EProd [EVar "i"; EConst true])).
-Definition wY : qitem :=
-  ("p", {| b_lhs := "c"; b_sub := true; b_loops := ["i"]; b_flat := EConst true; b_raw := EConst true |}).
+Definition wY : qitem := ("p", asgl "c" ["i"] true (EConst true)).
 
-Lemma full_statement_refuted : forall ui ai ic sr, ~ full_statement (mk_cfg ui ai ic sr false).
+Lemma full_statement_refuted : forall ui ai ic sr ao, ~ full_statement (mk_cfg ui ai ic sr false false ao).
 Proof.
-  intros ui ai ic sr H.
+  intros ui ai ic sr ao H.
   specialize (H 10 10 [] [wX; wY] [wY; wX] (perm_swap _ _ _)).
   assert (Hwf : forall it, In it [wX; wY] -> wf_item it) by (intros it [<-|[<-|[]]]; reflexivity).
   assert (Hf : forall (p x : string) (k : okind), In (p, x, k) [] -> k <> None) by (intros p x k []).
   specialize (H Hwf Hf).
-  destruct ui, ai, ic, sr; vm_compute in H; apply H; discriminate.
+  destruct ui, ai, ic, sr, ao; vm_compute in H; apply H; discriminate.
 Qed.
 
 (* registered up front, both orders agree *)
 Example loop_variable_repaired :
-  outcome_sim (run_queue (mk_cfg true true true true true) 10 [] [wX; wY])
-              (run_queue (mk_cfg true true true true true) 10 [] [wY; wX]).
+  outcome_sim (run_queue (mk_cfg true true true true true true true) 10 [] [wX; wY])
+              (run_queue (mk_cfg true true true true true true true) 10 [] [wY; wX]).
 Proof. vm_compute. intros k. reflexivity. Qed.
 
 (* ---- defect: inserting a new name does not set the change flag ----
@@ -68,13 +99,13 @@ Proof. vm_compute. intros k. reflexivity. Qed.
 Definition wZ : qitem := ("p", asg "z" (EConst false)).
 Definition wS : qitem := ("p", asg "y" (ESum [EConst true; EVar "z"])).
 
-Lemma insert_unflagged_refuted : forall sr pp,
+Lemma insert_unflagged_refuted : forall sr pp rs ao,
   exists T T',
-    run_queue (mk_cfg true true false sr pp) 10 [] [wZ; wS] = OTable T false /\
-    run_queue (mk_cfg true true false sr pp) 10 [] [wS; wZ] = OTable T' false /\
+    run_queue (mk_cfg true true false sr pp rs ao) 10 [] [wZ; wS] = OTable T false /\
+    run_queue (mk_cfg true true false sr pp rs ao) 10 [] [wS; wZ] = OTable T' false /\
     ~ table_equiv T T'.
 Proof.
-  intros sr pp. destruct sr, pp; do 2 eexists;
+  intros sr pp rs ao. destruct sr, pp, rs, ao; do 2 eexists;
     (split; [vm_compute; reflexivity|split; [vm_compute; reflexivity|]]);
     intro E; specialize (E (Some "p", "y")); vm_compute in E; discriminate.
 Qed.
@@ -84,32 +115,98 @@ Qed.
 Definition wB : qitem := ("p", asg "x" (ECmp (EVar "<t>") (EConst true))).
 Definition wA : qitem := ("p", asg "x" (ESum [EVar "<t>"; EConst true])).
 
-Lemma first_kind_wins_refuted : forall ic pp,
+Lemma first_kind_wins_refuted : forall ic pp rs ao,
   exists T T',
-    run_queue (mk_cfg true true ic false pp) 10 [] [wB; wA] = OTable T true /\
-    run_queue (mk_cfg true true ic false pp) 10 [] [wA; wB] = OTable T' true /\
+    run_queue (mk_cfg true true ic false pp rs ao) 10 [] [wB; wA] = OTable T true /\
+    run_queue (mk_cfg true true ic false pp rs ao) 10 [] [wA; wB] = OTable T' true /\
     ~ table_equiv T T'.
 Proof.
-  intros ic pp. destruct ic, pp; do 2 eexists;
+  intros ic pp rs ao. destruct ic, pp, rs, ao; do 2 eexists;
     (split; [vm_compute; reflexivity|split; [vm_compute; reflexivity|]]);
     intro E; specialize (E (Some "p", "x")); vm_compute in E; discriminate.
 Qed.
 
 (* with the re-raise both orders fail *)
 Example first_kind_wins_repaired :
-  outcome_sim (run_queue (mk_cfg true true true true true) 10 [] [wB; wA])
-              (run_queue (mk_cfg true true true true true) 10 [] [wA; wB]).
+  outcome_sim (run_queue (mk_cfg true true true true true true true) 10 [] [wB; wA])
+              (run_queue (mk_cfg true true true true true true true) 10 [] [wA; wB]).
 Proof. vm_compute. exact I. Qed.
+
+(* ---- defect: giving up although the table changed during the pass ----
+   w <- 1.5 ; x <- i + w (loop i) ; y <- elementwise_abs(x)       (statements are popped from the end)
+   In this order y is popped first and deferred, x gets Scalar (w is known), y is retried: a table.
+   With the first two swapped, x is entered as Integer (from i alone; w is skipped by map_sum),
+   elementwise_abs(Integer) cannot be inferred, w arrives, the retry sweep still sees x: Integer and
+   makes no progress: RuntimeError -- the next pass would have raised x to Scalar. *)
+Definition wW : qitem := ("p", asg "w" (EConst true)).
+Definition wXi : qitem := ("p", asgl "x" ["i"] false (ESum [EVar "i"; EVar "w"])).
+Definition wAbs : qitem := ("p", asg "y" (ECall "<builtin>elementwise_abs" [EVar "x"] [])).
+
+Lemma gives_up_early_refuted : forall ao, ~ full_statement (mk_cfg true true true true true false ao).
+Proof.
+  intros ao H.
+  specialize (H 10 10 [] [wW; wXi; wAbs] [wXi; wW; wAbs] (perm_swap _ _ _)).
+  assert (Hwf : forall it, In it [wW; wXi; wAbs] -> wf_item it) by (intros it [<-|[<-|[<-|[]]]]; reflexivity).
+  assert (Hf : forall (p x : string) (k : okind), In (p, x, k) [] -> k <> None) by (intros p x k []).
+  specialize (H Hwf Hf).
+  destruct ao; vm_compute in H; apply H; discriminate.
+Qed.
+
+Example gives_up_early_repaired :
+  outcome_simb (run_queue (mk_cfg true true true true true true true) 10 [] [wW; wXi; wAbs])
+              (run_queue (mk_cfg true true true true true true true) 10 [] [wXi; wW; wAbs]) = true.
+Proof. vm_compute. reflexivity. Qed.
+
+(* ---- defect: matmul is inferable for a Scalar but not for the UserType above it ----
+   a <- 1.5 ; a <- <func>f(<t>, <state>y) ; s <- matmul(a, a, 1, 1) + 1
+   The order [a <- f(..); s <- ..; a <- 1.5] pops a <- 1.5 first, then s: matmul(Scalar, Scalar) is an
+   Array, which the sum keeps although a then becomes the user type u and matmul(u, u) cannot be
+   inferred any more; in program order a is the user type when s is popped and s is a Scalar. *)
+Definition wA1 : qitem := ("p", asg "a" (EConst true)).
+Definition wA2 : qitem := ("p", asg "a" (ECall "<func>f" [EVar "<t>"; EVar "<state>y"] [])).
+Definition wMM : qitem :=
+  ("p", asg "s" (ESum [ECall "<builtin>matmul" [EVar "a"; EVar "a"; EConst true; EConst true] []; EConst true])).
+
+Lemma scalar_matrix_refuted : forall pp rs,
+  exists T T',
+    run_queue (mk_cfg true true true true pp rs false) 10 [] [wA1; wA2; wMM] = OTable T false /\
+    run_queue (mk_cfg true true true true pp rs false) 10 [] [wA2; wMM; wA1] = OTable T' false /\
+    ~ table_equiv T T'.
+Proof.
+  intros pp rs. destruct pp, rs; do 2 eexists;
+    (split; [vm_compute; reflexivity|split; [vm_compute; reflexivity|]]);
+    intro E; specialize (E (Some "p", "s")); vm_compute in E; discriminate.
+Qed.
+
+Lemma scalar_matrix_full_refuted : forall pp rs, ~ full_statement (mk_cfg true true true true pp rs false).
+Proof.
+  intros pp rs H. destruct (scalar_matrix_refuted pp rs) as [T [T' [E1 [E2 Hne]]]].
+  assert (Hperm : Permutation [wA1; wA2; wMM] [wA2; wMM; wA1]).
+  { change [wA2; wMM; wA1] with (List.app [wA2; wMM] [wA1]). apply Permutation_cons_append. }
+  specialize (H 10 10 [] _ _ Hperm).
+  assert (Hwf : forall it, In it [wA1; wA2; wMM] -> wf_item it) by (intros it [<-|[<-|[<-|[]]]]; reflexivity).
+  assert (Hf : forall (p x : string) (k : okind), In (p, x, k) [] -> k <> None) by (intros p x k []).
+  specialize (H Hwf Hf).
+  assert (Hs : outcome_sim (OTable T false) (OTable T' false)).
+  { rewrite <- E1, <- E2. apply H; intro Hx.
+    - pose proof (eq_trans (eq_sym E1) Hx). discriminate.
+    - pose proof (eq_trans (eq_sym E2) Hx). discriminate. }
+  apply Hne. exact Hs.
+Qed.
+
+Example scalar_matrix_repaired :
+  outcome_simb (run_queue (mk_cfg true true true true true true true) 10 [] [wA1; wA2; wMM])
+              (run_queue (mk_cfg true true true true true true true) 10 [] [wA2; wMM; wA1]) = true.
+Proof. vm_compute. reflexivity. Qed.
 
 (* ---- non-vacuity: the hypotheses of both theorems are satisfiable with a run in which a
    statement is deferred, a kind is raised from real to complex and a second pass is needed,
    with a loop variable and a subscripted assignment *)
 Definition wC : qitem := ("p", asg "w" (EProd [EVar "y"; EVar "z"; EVar "i"])).
-Definition wL : qitem :=
-  ("p", {| b_lhs := "v"; b_sub := true; b_loops := ["i"]; b_flat := EVar "w"; b_raw := EVar "w" |}).
+Definition wL : qitem := ("p", asgl "v" ["i"] true (EVar "w")).
 
 Example hypotheses_satisfiable :
-  let c := mk_cfg true true true true true in
+  let c := mk_cfg true true true true true true true in
   let all := [wZ; wS; wC; wL] in
   let all' := [wL; wC; wS; wZ] in
   Permutation all all' /\
@@ -128,23 +225,60 @@ Proof.
   - do 2 eexists. repeat split; vm_compute; reflexivity.
 Qed.
 
-Lemma mk_cfg_init_ok : forall ui ai ic sr pp x,
-  In x (c_init_global (mk_cfg ui ai ic sr pp)) -> c_is_state (mk_cfg ui ai ic sr pp) x = true.
-Proof. intros ui ai ic sr pp x [<-|[<-|[]]]; reflexivity. Qed.
+(* ---- non-vacuity with function calls: call statements (one with three results), a call nested
+   in a sum with a keyword argument, arguments defined after their use in the list, a complex
+   array that raises a result from real to complex in a second pass; two phases with a local
+   variable of the same name and different kinds, presented in both dict orders *)
+Definition cM : bstmt := calls ["m"] "<builtin>array" [EConst true] [].
+Definition cSvd : bstmt := calls ["u"; "s"; "v"] "<builtin>svd" [EVar "m"; EConst true] [].
+Definition cD : bstmt :=
+  asg "d" (ESum [ECall "<builtin>dot_product" [EVar "m"; EVar "m"] ["y"]; EConst true]).
+Definition cMM : bstmt :=
+  calls ["z"] "<builtin>matmul" [EVar "m"; EVar "v"; EConst true; EConst true] ["b_cols"; "a_cols"].
+Definition cMc : bstmt := asg "m" (EProd [EVar "m"; EConst false]).
+Definition cQ : bstmt := asg "m" (ECmp (EVar "<t>") (EConst true)).
+
+Example hypotheses_satisfiable_calls :
+  let c := mk_cfg true true true true true true true in
+  let dag := [("p", [cMM; cD; cSvd; cM; cMc]); ("q", [cQ])] in
+  let dag' := [("q", [cQ]); ("p", [cMc; cM; cSvd; cD; cMM])] in
+  (forall ph s, In ph dag -> In s (snd ph) -> stmt_ok s = true) /\
+  exists T T',
+    infer_kinds c 10 dag = OTable T false /\ infer_kinds c 10 dag' = OTable T' false /\
+    tfind T (Some "p", "z") = Some (Some (KArray false)) /\
+    tfind T (Some "p", "s") = Some (Some (KArray false)) /\
+    tfind T (Some "p", "d") = Some (Some (KScalar false)) /\
+    tfind T (Some "p", "m") = Some (Some (KArray false)) /\
+    tfind T (Some "q", "m") = Some (Some KBool) /\
+    table_eqb T T' = true.
+Proof.
+  cbv zeta. split.
+  - intros ph s [<-|[<-|[]]]; cbn; intros H; repeat (destruct H as [<-|H]; [reflexivity|]); destruct H.
+  - do 2 eexists. repeat (split; [vm_compute; reflexivity|]). vm_compute; reflexivity.
+Qed.
+
+Lemma mk_cfg_init_ok : forall ui ai ic sr pp rs ao x,
+  In x (c_init_global (mk_cfg ui ai ic sr pp rs ao)) -> c_is_state (mk_cfg ui ai ic sr pp rs ao) x = true.
+Proof. intros ui ai ic sr pp rs ao x [<-|[<-|[]]]; reflexivity. Qed.
 
 (* the theorems instantiated at the repaired shapes *)
-Theorem order_independent_partial_cfg : forall sr pp fuel fuel' forced all all' T T',
+Theorem order_independent_partial_cfg : forall sr pp rs fuel fuel' forced all all' T T',
   Permutation all all' ->
   (forall it, In it all -> wf_item it) ->
   (forall p x k, In (p, x, k) forced -> k <> None) ->
-  run_queue (mk_cfg true true true sr pp) fuel forced all = OTable T false ->
-  run_queue (mk_cfg true true true sr pp) fuel' forced all' = OTable T' false ->
+  run_queue (mk_cfg true true true sr pp rs true) fuel forced all = OTable T false ->
+  run_queue (mk_cfg true true true sr pp rs true) fuel' forced all' = OTable T' false ->
   table_equiv T T'.
 Proof.
-  intros sr pp. apply order_independent_partial; try reflexivity. apply mk_cfg_init_ok.
+  intros sr pp rs. apply order_independent_partial; try reflexivity. apply mk_cfg_init_ok.
 Qed.
 
-Theorem order_independent_cfg : full_statement (mk_cfg true true true true true).
+Theorem order_independent_cfg : full_statement (mk_cfg true true true true true true true).
 Proof.
   unfold full_statement. apply order_independent; try reflexivity. apply mk_cfg_init_ok.
+Qed.
+
+Theorem glue_cfg : glue_statement (mk_cfg true true true true true true true).
+Proof.
+  unfold glue_statement. apply infer_kinds_phase_order; try reflexivity. apply mk_cfg_init_ok.
 Qed.
